@@ -635,6 +635,19 @@ def scen_S6(s):
     return finish_b(w, s, r)
 
 
+def scen_S8(s):
+    """start(); end_replication() issued by the driver while the run thread
+    is active"""
+    w = LC.new_world(times=(1.0, 2.0), end=3.0, warmup=0.0)
+    I = LC.classes()["issue_raw"]
+    r = [I(w, ("initialize",))]
+    s.wait_quiescent()
+    r.append(I(w, ("start",)))
+    r.append(I(w, ("end_replication",)))
+    s.wait_quiescent()
+    return finish_b(w, s, r)
+
+
 def scen_S2(s):
     """rapid start/stop alternation on an endless model, then
     end_replication (the repository's start/stop demo)"""
@@ -658,6 +671,7 @@ SCEN = {"S1": (scen_S1, (1.0, 2.0), 3.0), "S3": (scen_S3, (1.0, 2.0, 3.0), 5.0),
         "S5cleanup": (scen_S5c, (1.0, 2.0), 3.0),
         "S5init": (scen_S5i, (1.0, 2.0), 3.0),
         "S6": (scen_S6, (1.0, 2.0, 3.0), 5.0),
+        "S8": (scen_S8, (1.0, 2.0), 3.0),
         "S2": (scen_S2, None, 1e9)}
 
 
@@ -712,8 +726,8 @@ def judge_b(name):
                 pass
             elif tr != full[:len(tr)]:
                 bad.append(("I4-trace-not-a-prefix", tr))
-            elif state == ("ENDED", "ENDED") and (tr != full
-                                                   or o["clock"] != end):
+            elif state == ("ENDED", "ENDED") and name != "S8" and (
+                    tr != full or o["clock"] != end):
                 bad.append(("I4-ended-incomplete", tr, o["clock"]))
         # I5 no lost command
         if name in ("S3", "S3f", "S4", "S6") and outs[-1] == "ok" and \
@@ -732,6 +746,8 @@ def judge_b(name):
                     names.index("STOPPING") < names.index("EXEC"):
                 bad.append(("I5-stop-accepted-before-the-first-event-was-lost",
                             state))
+        if name == "S8" and state != ("ENDED", "ENDED"):
+            bad.append(("I5-end_replication-did-not-end", state))
         if name == "S2" and state != ("ENDED", "ENDED"):
             bad.append(("I5-end_replication-did-not-end", state))
         if name == "S5cleanup" and state != ("NOT_INITIALIZED",
@@ -785,9 +801,14 @@ def explore_b(ctx, name, bound, cap):
             queue.extend(tuple(x) for x in r["left"])
             for prefix, key, bad in r["viols"]:
                 for b in bad:
-                    sig = "C04b:%s:%s:%s" % (name, b[0], b[1] if len(b) > 1
-                                             and len(str(b[1])) < 60
-                                             else "")
+                    # signature: scenario + invariant + (monitor rule | final
+                    # states); data such as traces stay in the witness
+                    if b[0] == "I3-stream":
+                        detail = b[1]
+                    else:
+                        detail = key.split("), (")[1].split(")")[0] \
+                            if "), (" in key else ""
+                    sig = "C04b:%s:%s:%s" % (name, b[0], detail)
                     e = viol_sigs.setdefault(sig, [0, prefix, key, b])
                     e[0] += 1
                     if len(prefix) < len(e[1]):
@@ -854,10 +875,10 @@ def run(ctx):
     ctx.part("C04a raw command sequences (no dedup)", sequences=nraw,
              depth=depth)
     # ---------------- C04b
-    plan = [("S1", 2), ("S3f", 1), ("S4", 1), ("S5cleanup", 1), ("S5init", 1),
-            ("S6", 1), ("S2", 1)] if quick else \
-        [("S1", 2), ("S3f", 2), ("S3", 1), ("S4", 2), ("S5cleanup", 2), ("S5init", 2),
-         ("S6", 2), ("S2", 1), ("S1", 3)]
+    plan = [("S1", 2), ("S3f", 2), ("S4", 2), ("S5cleanup", 2), ("S5init", 1),
+            ("S6", 1), ("S8", 1), ("S2", 1)] if quick else \
+        [("S1", 2), ("S3f", 2), ("S3", 2), ("S4", 2), ("S5cleanup", 2),
+         ("S5init", 2), ("S6", 2), ("S8", 2), ("S2", 2), ("S1", 3)]
     nexec = 0
     nout = 0
     for name, bound in plan:
